@@ -8,7 +8,7 @@
     n times); [cp] = some row of the zone carries the key.  [expected v] = the stored value (null for an
     absent key); [json_eqb] compares numbers numerically (floats among themselves bit-wise). *)
 From Coq Require Import ZArith NArith List Bool.
-From Snel Require Import Base.Bytes Model.Float64 Model.RustText Model.Json Model.ValueTiers.
+From Snel Require Import Base.Bytes Model.Float64 Model.RustText Model.JsonV7 Model.ValueTiers.
 From Snel Require Import Proofs.ValueTiersProofs Proofs.ValueProjProofs.
 Import ListNotations.
 Open Scope Z_scope.
